@@ -150,7 +150,9 @@ type cAct struct {
 type cInput struct {
 	Cap     int    `json:"cap"`
 	Actions []cAct `json:"actions"`
-	Stress  int    `json:"stress,omitempty"` // instead of a session: this many cache builds from scratch on a small repository
+	Stress  int    `json:"stress,omitempty"` // instead of a session: this many cache builds from scratch on one repository
+	Ids     int    `json:"ids,omitempty"`    // stress: number of identities (default 6)
+	Bugs    int    `json:"bugs,omitempty"`   // stress: number of bugs (default 12), each commented by several identities
 }
 
 // ---- observations ----
@@ -212,13 +214,13 @@ type cViews struct {
 }
 
 type cMerge struct {
-	Ident  bool   `json:"ident,omitempty"`
-	E      int    `json:"e"` // bug entity or user index
-	Status string `json:"st"`
-	ID     string `json:"-"`
-	NewIdx int    `json:"new_idx,omitempty"` // merge commit written (index in the graph), 0 = none
+	Ident  bool     `json:"ident,omitempty"`
+	E      int      `json:"e"` // bug entity or user index
+	Status string   `json:"st"`
+	ID     string   `json:"-"`
+	NewIdx int      `json:"new_idx,omitempty"` // merge commit written (index in the graph), 0 = none
 	Ops    []string `json:"-"`
-	HasOps bool   `json:"-"`
+	HasOps bool     `json:"-"`
 }
 
 type cEvent struct {
@@ -227,7 +229,7 @@ type cEvent struct {
 	E      int      `json:"e"`
 	Out    string   `json:"out"` // done | fail
 	Err    string   `json:"err,omitempty"`
-	Op     string   `json:"-"`        // edit: id of the staged operation
+	Op     string   `json:"-"` // edit: id of the staged operation
 	NewIdx []int    `json:"new_idx,omitempty"`
 	Merges []cMerge `json:"merges,omitempty"`
 	Wipe   int      `json:"wipe,omitempty"`
@@ -272,18 +274,18 @@ type cUser struct {
 }
 
 type cSession struct {
-	in      cInput
-	dir     string
-	remote  *repository.GoGitRepo
-	users   []*cUser
-	userID  []entity.Id // identity id of user u
-	g       *wGraph
-	entOf   map[string]int
-	ops     map[string]*cOp
-	events  []cEvent
-	tick    int64
-	tags    map[string]bool
-	skip    string
+	in       cInput
+	dir      string
+	remote   *repository.GoGitRepo
+	users    []*cUser
+	userID   []entity.Id // identity id of user u
+	g        *wGraph
+	entOf    map[string]int
+	ops      map[string]*cOp
+	events   []cEvent
+	tick     int64
+	tags     map[string]bool
+	skip     string
 	nscratch int
 	stop     bool // a resolved entity turned out to be locked for ever: the session ends there
 }
@@ -650,6 +652,10 @@ func c11CopyTree(src, dst string, skip func(rel string) bool) error {
 		if info.IsDir() {
 			return os.MkdirAll(target, 0o755)
 		}
+		// git objects are immutable: a hard link is as good as a copy
+		if strings.HasPrefix(filepath.ToSlash(rel), ".git/objects/") && os.Link(p, target) == nil {
+			return nil
+		}
 		in, err := os.Open(p)
 		if err != nil {
 			return err
@@ -776,8 +782,9 @@ func (s *cSession) goDiff(ev *cEvent) {
 			a.AuNames, b.AuNames = nil, nil
 			if j(a) != j(b) || j(a.Ops) != j(b.Ops) {
 				s.tags["diff:resolved-bug"] = true
-			} else if j(an) != j(bn) {
-				s.tags["note:actor-name-through-loaded-bug-stale"] = true
+			}
+			if j(an) != j(bn) {
+				s.tags["diff:actor-name"] = true
 			}
 		}
 	}
@@ -1136,28 +1143,39 @@ func runC11(in cInput) (*cSession, string) {
 
 // ---- stress: many cache builds from scratch (the identity and bug sub-caches are built concurrently) ----
 
-func runC11Stress(n int) string {
+func runC11Stress(in cInput) string {
+	n, nids, nbugs := in.Stress, in.Ids, in.Bugs
+	if nids < 1 {
+		nids = 6
+	}
+	if nbugs < 1 {
+		nbugs = 12
+	}
 	s := &cSession{in: cInput{Cap: 1000}, g: newGraph(), tags: map[string]bool{}, entOf: map[string]int{}, ops: map[string]*cOp{}}
 	defer s.cleanup()
 	s.setup()
 	u := s.users[0]
-	// a handful of identities and bugs authored by them
-	for i := 0; i < 6; i++ {
+	var ids []*cache.IdentityCache
+	for i := 0; i < nids; i++ {
 		ic, err := u.c.Identities().New(fmt.Sprintf("stress%d", i), fmt.Sprintf("s%d@example.org", i))
 		if err != nil {
 			return err.Error()
 		}
-		for k := 0; k < 2; k++ {
-			b, _, err := u.c.Bugs().NewRaw(ic, s.now(), c11Text([]int{i, k}), c11Text([]int{k}), nil, nil)
-			if err != nil {
+		ids = append(ids, ic)
+	}
+	for k := 0; k < nbugs; k++ {
+		b, _, err := u.c.Bugs().NewRaw(ids[k%nids], s.now(), c11Text([]int{k, k + 1}), c11Text([]int{k}), nil, nil)
+		if err != nil {
+			return err.Error()
+		}
+		// comments by several identities: reading the bug resolves every author through the identity sub-cache
+		for j := 1; j <= 6; j++ {
+			if _, _, err := b.AddCommentRaw(ids[(k+j*5)%nids], s.now(), c11Text([]int{k + j}), nil, nil); err != nil {
 				return err.Error()
 			}
-			if _, _, err := b.AddCommentRaw(ic, s.now(), c11Text([]int{i + 1}), nil, nil); err != nil {
-				return err.Error()
-			}
-			if err := b.Commit(); err != nil {
-				return err.Error()
-			}
+		}
+		if err := b.Commit(); err != nil {
+			return err.Error()
 		}
 	}
 	for i := 0; i < n; i++ {
@@ -1192,6 +1210,11 @@ func genC11(r *Rand, maxActions int) cInput {
 		return cAct{K: "new", R: rep, W: words(1, 2), W2: words(1, 3), V: r.Intn(3), Rot: r.Intn(5)}
 	}
 	in.Actions = append(in.Actions, newBug(r.Intn(2)))
+	// half of the sessions start with a bug both users have, so that updates of known bugs and diverged merges are common
+	if r.Bool() {
+		a := in.Actions[0].R
+		in.Actions = append(in.Actions, cAct{K: "push", R: a, Rot: r.Intn(5)}, cAct{K: "pull", R: 1 - a, Rot: r.Intn(5)})
+	}
 	editKinds := []string{"comment", "comment", "title", "status", "label", "label", "editcomment", "meta"}
 	for len(in.Actions) < n {
 		rep := r.Intn(2)
@@ -1204,8 +1227,12 @@ func genC11(r *Rand, maxActions int) cInput {
 			in.Actions = append(in.Actions, a)
 		case x < 18:
 			in.Actions = append(in.Actions, cAct{K: "commit", R: rep, Rot: rot})
-		case x < 23:
+		case x < 21:
 			in.Actions = append(in.Actions, cAct{K: "push", R: rep, Rot: rot})
+		case x < 23:
+			// a full exchange: this user commits, pulls and pushes, then the other one commits and pulls
+			in.Actions = append(in.Actions, cAct{K: "commit", R: rep, Rot: rot}, cAct{K: "pull", R: rep, Rot: rot}, cAct{K: "push", R: rep, Rot: r.Intn(5)},
+				cAct{K: "commit", R: 1 - rep, Rot: r.Intn(5)}, cAct{K: "pull", R: 1 - rep, Rot: r.Intn(5)})
 		case x < 31:
 			// a pull usually follows a commit of what is staged; sometimes it does not
 			if r.Chance(3, 4) {
@@ -1246,9 +1273,9 @@ type c11Driver struct{}
 func init() { register("C11", c11Driver{}) }
 
 func (c11Driver) Gen(r *Rand, tier string) []json.RawMessage {
-	n, maxA := 48, 30
+	n, maxA := 192, 30
 	if tier == "thorough" {
-		n, maxA = 960, 40
+		n, maxA = 3840, 40
 	}
 	var res []json.RawMessage
 	for i := 0; i < n; i++ {
@@ -1263,7 +1290,7 @@ func (c11Driver) Run(raw json.RawMessage) Case {
 		return Case{Skip: "bad input: " + err.Error()}
 	}
 	if in.Stress > 0 {
-		if msg := runC11Stress(in.Stress); msg != "" {
+		if msg := runC11Stress(in); msg != "" {
 			return Case{Skip: "stress: " + msg}
 		}
 		return Case{Coq: "mkcase 2 [] [] [] []", Tags: []string{"stress-build"}, Key: string(raw)}
@@ -1283,7 +1310,7 @@ func (c11Driver) Run(raw json.RawMessage) Case {
 
 // ---- Coq rendering (K_C11.case) ----
 
-func c11N(n int) string    { return fmt.Sprintf("%d%%N", n) }
+func c11N(n int) string { return fmt.Sprintf("%d%%N", n) }
 func c11Ns(xs []int) string {
 	ys := make([]string, len(xs))
 	for i, x := range xs {
@@ -1373,8 +1400,8 @@ func (s *cSession) coqViews(v *cViews, or ranker) string {
 		for _, cm := range n.Comments {
 			cms = append(cms, fmt.Sprintf("(%d%%N, %s)", cm.Au+1, c11Ns(cm.Msg)))
 		}
-		snaps = append(snaps, fmt.Sprintf("mksnap %d %d%%N %s %d%%N %s %s %s %s %s %s", n.E, state, c11Ns(ops), n.St, c11Ns(n.Title), c11Ns(n.Labels),
-			coqList(cms), c11Users(n.Actors), c11Users(n.Parts), coqBool(n.Dirty)))
+		snaps = append(snaps, fmt.Sprintf("mksnap %d %d%%N %s %d%%N %s %s %s %s %s %s %s", n.E, state, c11Ns(ops), n.St, c11Ns(n.Title), c11Ns(n.Labels),
+			coqList(cms), c11Users(n.Actors), c11Users(n.Parts), coqBool(n.Dirty), c11Ns(n.AuNames)))
 	}
 	return fmt.Sprintf("(mkviews %s %s %s %s %s %s %s %s)", coqList(excs), coqList(ids), c11Ns(v.Labels), coqList(qs), coqList(meta), coqList(idmeta), coqList(idres), coqList(snaps))
 }
